@@ -355,14 +355,14 @@ func genC16(e *emitter, r *rng, tier string) {
 		}
 	}
 	// complete sweeps of the small domains on the implementation side
-	if tier == "thorough" {
-		for wv := 0; wv < 65536; wv++ {
-			b := []byte{byte(wv >> 8), byte(wv)}
-			e.emit("rlc-dec-all", opDec("RunLengthChunk", b))
-			e.emit("svc-dec-all", opDec("StatusVectorChunk", b))
-			e.emit("metric-dec-all", opDec("CCFeedbackMetricBlock", b))
-			e.emit("delta2-all", opDec("RecvDelta", b))
-		}
+	// (every tier since the sixth round of seeded changes: a change that differs on a single word is otherwise reported
+	// by the sweep lemma of the translated function alone, without an input)
+	for wv := 0; wv < 65536; wv++ {
+		b := []byte{byte(wv >> 8), byte(wv)}
+		e.emit("rlc-dec-all", opDec("RunLengthChunk", b))
+		e.emit("svc-dec-all", opDec("StatusVectorChunk", b))
+		e.emit("metric-dec-all", opDec("CCFeedbackMetricBlock", b))
+		e.emit("delta2-all", opDec("RecvDelta", b))
 	}
 	// the XR chunk accessors are cheap enough for a complete sweep in every tier (seed C16-4 differs on the single
 	// word 0x4000, which a sample of 1 500 random words misses)
